@@ -115,7 +115,7 @@ def Plane.storeCpr (env : Env) (p : Plane) (messageType : Nat) (c : Option (Nat 
   | none => p
 
 /-- `(altitude as i32 + altitude_delta) as u32` -/
-def gnssFromDelta (altitude : Nat) (delta : Int) : Nat := (((altitude : Int) + delta) % 4294967296).toNat
+def gnssFromDelta (altitude : Nat) (delta : Int) : Nat := i32ToU32 (u32ToI32 altitude + delta)
 
 /-- the GNSS altitude a TC19 frame derives from the barometric one -/
 def gnssUpdate (cur : Option Nat) (altitude : Option Nat) (delta : Option Int) : Option Nat :=
